@@ -311,6 +311,48 @@ func c9inputUnits(tier string) []mc.Unit {
 			r.Bound("inputs", fmt.Sprintf("designs with J<=%d; all 2^f orientations; all f! input orders for small f; with and without a dead-end decoy", maxJ))
 		}})
 	}
+	// full libraries: 3 alternatives in every slot (up to 729 plasmids and several thousand goroutines alive)
+	for _, J := range []int{4, 5, 6} {
+		J := J
+		if J == 6 && tier != "thorough" {
+			continue // 729 plasmids: about three minutes
+		}
+		us = append(us, mc.Unit{Name: fmt.Sprintf("inputs/library=%dx3", J), Serial: true, Weight: 300 * (J - 3), Run: func(r *mc.Recorder) {
+			d := make([]int, J)
+			for i := range d {
+				d[i] = 3
+			}
+			base := c9design(d)
+			want := c9rings(base)
+			if len(want) != int(pow(3, J)) {
+				panic("generator self-check: library size")
+			}
+			var cnt int64
+			for _, variant := range []int{0, 1} {
+				in := append([]c9frag(nil), base...)
+				if variant == 1 { // every second fragment flipped, input order reversed
+					for i := range in {
+						if i%2 == 1 {
+							in[i] = in[i].flip()
+						}
+					}
+					for i, j := 0, len(in)-1; i < j; i, j = i+1, j-1 {
+						in[i], in[j] = in[j], in[i]
+					}
+				}
+				once(func(c *mc.Ctx) {
+					out, parts := runLigate(c, toClone(in), sched.Options{Horizon: 3000000, MaxTasks: 200000})
+					c9judge(r, fmt.Sprintf("library %d junctions x 3 alternatives, variant %d", J, variant), []string{"inputs"}, nil, out, parts, want)
+				})
+				cnt++
+			}
+			r.Eval(cnt)
+			r.AddStates(cnt)
+			r.AddTransitions(cnt)
+			r.AddNontrivial(cnt)
+			r.Bound("inputs/libraries", "complete libraries of 4, 5 and 6 junctions x 3 alternatives (81, 243, 729 plasmids) on the default schedule, as designed and with alternate fragments flipped in reversed input order")
+		}})
+	}
 	// two disjoint rings in one pool; a ring plus a self-closing fragment
 	us = append(us, mc.Unit{Name: "inputs/multi-ring", Serial: true, Weight: 50, Run: func(r *mc.Recorder) {
 		var cnt int64
